@@ -103,6 +103,21 @@ def coq_make(targets, timeout=2400):
         return rc == 0, out
 
 
+def props_targets(prop):
+    """the .vo files Props/<prop>.v imports (make builds their dependencies): one broken
+    proof elsewhere does not block an unrelated property."""
+    text = strip_comments(open(os.path.join(COQ, "Props", prop + ".v")).read())
+    names = []
+    for m in re.finditer(r"From PNA Require (?:Import|Export)\s+([^.]*)\.", text):
+        names += m.group(1).split()
+    out = []
+    for n in names:
+        for d in ("Model", "Proofs"):
+            if os.path.exists(os.path.join(COQ, d, n + ".v")):
+                out.append("%s/%s.vo" % (d, n))
+    return out or ["all"]
+
+
 def coq_props(prop, timeout=900):
     """Compile Props/<prop>.v (theorem = exact lemma; Check pin; Print Assumptions) and
     return (ok, [(theorem, assumptions-text)], log)."""
